@@ -58,6 +58,17 @@ def gen_case(rnd, length):
             ops.append(["SLink", idx(rnd.random() < 0.7)])
         elif k < 0.72:
             ops.append(["SUnlink"])
+        elif k < 0.76:
+            def sa():
+                return rnd.choice([None, "BAD", rnd.choice(["ms", "lbl", "äö"])]) if rnd.random() < 0.5 else None
+            which = rnd.random()
+            if which < 0.4:
+                tk = rnd.choice([None, "BAD", sorted(rnd.randint(-3, 9) for _ in range(rnd.randint(1, 3))), [4, 2]])
+                ops.append(["AppendRange", tk, sa(), sa()])
+            elif which < 0.8:
+                ops.append(["AppendSampled", rnd.choice([1, 2, 5, "BAD"]), sa(), sa(), rnd.choice([None, None, 0, 3, "BAD"])])
+            else:
+                ops.append(["AppendSet", rnd.choice([None, "BAD", [rnd.randint(0, 9) for _ in range(rnd.randint(1, 3))]])])
         elif k < 0.80:
             ops.append(["TSetUnit", rnd.choice(UNITS)])
         elif k < 0.85:
@@ -77,11 +88,20 @@ def olist(l):
     return "(@None (list Z))" if l is None else "(Some %s)" % clist([cZ(x) for x in l], "Z")
 
 
+def xdim_lit(x):
+    if x[0] == "range":
+        return "(XRange %s %s %s)" % (olist(x[1]), ostr(x[2]), ostr(x[3]))
+    if x[0] == "sampled":
+        return "(XSampled %s %s %s %s)" % (cZ(x[1]), ostr(x[2]), ostr(x[3]), "(@None Z)" if x[4] is None else "(Some %s)" % cZ(x[4]))
+    return "(XSet %s)" % olist(x[1])
+
+
 def state_lit(st):
-    return "(mkDS (mkTarget %s %s %s %s) (mkR %s %s %s %s) (mkS %s %s))" % (
+    return "(mkDS (mkTarget %s %s %s %s) (mkR %s %s %s %s) (mkS %s %s) %s)" % (
         ostr(st["t_unit"]), ostr(st["t_label"]), clist([cZ(x) for x in st["t_shape"]], "Z"), clist([cZ(x) for x in st["t_cells"]], "Z"),
         olist(st["r_ticks"]), ostr(st["r_unit"]), ostr(st["r_label"]), olist(st.get("r_link")),
-        olist(st["s_labels"]), olist(st.get("s_link")))
+        olist(st["s_labels"]), olist(st.get("s_link")),
+        clist([xdim_lit(x) for x in st.get("extra", [])], "xdim"))
 
 
 def op_lit(o):
@@ -94,6 +114,21 @@ def op_lit(o):
         return "(%s %s)" % (t, ostr(o[1]))
     if t == "TSetCell":
         return "(TSetCell %s %s)" % (cnat(o[1]), cZ(o[2]))
+
+    def sa(a):
+        return "StNone" if a is None else ("StBad" if a == "BAD" else "(StOk %s)" % cstr(a))
+
+    def na(a):
+        return "NmNone" if a is None else ("NmBad" if a == "BAD" else "(NmOk %s)" % cZ(a))
+
+    def ta(a):
+        return "TkNone" if a is None else ("TkBad" if a == "BAD" else "(TkOk %s)" % clist([cZ(x) for x in a], "Z"))
+    if t == "AppendRange":
+        return "(AppendRange %s %s %s)" % (ta(o[1]), sa(o[2]), sa(o[3]))
+    if t == "AppendSampled":
+        return "(AppendSampled %s %s %s %s)" % (na(o[1]), sa(o[2]), sa(o[3]), na(o[4]))
+    if t == "AppendSet":
+        return "(AppendSet %s)" % ta(o[1])
     return t
 
 
